@@ -36,6 +36,12 @@ ReloadEqual(loaded, diff) == loaded /\ diff = {}
 \* temporary path is gone (the rename consumed it).
 SaveOverLeftover(loaded, diff, fileLen, snapLen, tmpLeft) == ReloadEqual(loaded, diff) /\ WholeFile(fileLen, fileLen, snapLen) /\ ~tmpLeft
 
+\* --- a start-up whose READ of the (intact) cache file fails (openat / read returns EIO, EACCES, EMFILE).  The reloaded
+\* cache has to be the cache of the last successful save, so such a start-up may only fail -- or, if it does come up
+\* (started), hold the saved content (startedEqual); and whatever it goes on to do, a later fault-free start still finds
+\* the snapshot (afterLoaded, afterEqual): no save was interrupted, nothing may have replaced it.
+ReadFaultHandled(started, startedEqual, afterLoaded, afterEqual) == (started => startedEqual) /\ afterLoaded /\ afterEqual
+
 \* --- observe_at: "the cache file may only ever be replaced by rename"
 \* roles of the system calls that name the final path during a save.
 AllowedOnFinalPath == {"rename-dst", "open-read", "chmod"}
